@@ -11,11 +11,11 @@ Print Assumptions C07_submachine_first.
 
 (* bubbling and single consumption: the enclosing rows are tried exactly when the codes of everything before them -
    in particular the submachine's - are not consumed; once something consumed the event nothing after it runs *)
-Theorem C07_bubble_iff_not_consumed : forall cf mc children fuel r s ev l rn g c rn' g',
+Theorem C07_bubble_iff_not_consumed : forall cf contained mc children fuel r s ev l rn g c rn' g',
   c_fct cf = false ->
-  run_cell cf mc children fuel r s ev l rn g = (Some c, rn', g') ->
+  run_cell cf contained mc children fuel r s ev l rn g = (Some c, rn', g') ->
   exists cs,
-    exec_first (exec_item cf mc children fuel r s ev) (length cs) l rn g = (Some tt, rn', g') /\
+    exec_first (exec_item cf contained mc children fuel r s ev) (length cs) l rn g = (Some tt, rn', g') /\
     length cs <= length l /\
     (Forall (fun x => x < 8) cs ->
        (length cs < length l -> exists cs0 c0, cs = cs0 ++ [c0] /\ consumed c0 = true /\ Forall (fun x => consumed x = false) cs0) /\
@@ -36,8 +36,8 @@ Print Assumptions C07_other_submachines_untouched.
 
 (* leaving a machine exits the active state of each region in region order (for a submachine state that is its whole
    cascade, recursively) *)
-Theorem C07_exit_cascade : forall mc children fuel ev n r rn g,
-  exit_regions mc children fuel ev n r rn g = iterM (exit_step mc children fuel ev) (seqn r n) rn g.
+Theorem C07_exit_cascade : forall contained mc children fuel ev n r rn g,
+  exit_regions contained mc children fuel ev n r rn g = iterM (exit_step contained mc children fuel ev) (seqn r n) rn g.
 Proof. exact exit_regions_seq. Qed.
 Print Assumptions C07_exit_cascade.
 
